@@ -1,4 +1,5 @@
 """C12 — Array subscripts address distinct elements within declared bounds."""
+import copy
 import itertools
 import random
 
@@ -12,6 +13,9 @@ RULE = ('one case = one operation (OPTION BASE / DIM / ERASE / element read / el
         'out-of-range / negative / wrong-rank probes per dimension, re-DIM, ERASE, DIM again; (B) shapes of 1..4 '
         'dimensions with maximum subscripts up to 30 touched at their corner/boundary tuples and just outside; '
         '(C) PRNG histories over six arrays of all four types; (D) Arrays.index / flat_length called directly; '
+        '(F) short PRNG histories over {OPTION BASE 0/1, DIM with bounds 0..3, creation by first use, ERASE of one / '
+        'several / the last / all arrays, access at subscript 0 / 1 / max / max+1, CLEAR, NEW, RUN} driving the base '
+        'through unset / implied / explicit several times; '
         'non-trivial = the operation names an array (everything except CLEAR and dump)')
 EXPLANATION = ('theorems (PcbV.Props.C12): index_injective / index_surjective / index_lt_flatLength (flat index is a '
                'bijection between in-bounds tuples and buffer cells, for every shape and base), bounds_spec_* '
@@ -54,8 +58,8 @@ def enc_op(op):
         return 'g:%d:%s' % (op[1], enc_ints(op[2]))
     if k == 'set':
         return 's:%d:%s:%d' % (op[1], enc_ints(op[2]), op[3])
-    if k == 'clear':
-        return 'c'
+    if k in ('clear', 'new', 'run'):
+        return 'c'      # Memory.clear(preserve_base=False): one model operation for CLEAR, NEW and RUN
     if k == 'dump':
         return 'dump'
     raise ValueError(op)
@@ -132,6 +136,10 @@ class Impl(object):
             out = self.run_stmt('ERASE ' + ','.join(self.text(n) for n in op[1]))
         elif k == 'clear':
             out = self.run_stmt('CLEAR')
+        elif k == 'new':
+            out = self.run_stmt('NEW')
+        elif k == 'run':
+            out = self.run_stmt('RUN')          # the stored program is empty: RUN only resets the variables
         elif k == 'set':
             n, idx, v = op[1], op[2], op[3]
             rhs = '"s%d"' % v if NAMES[n][-1] == '$' else str(v)
@@ -255,7 +263,7 @@ class Oracle(object):
             tag = 'auto' if fresh else 'declared'
             if exp[0] == 'err':
                 if not (tok[0] == 'e' and int(tok[1:]) in exp[1]):
-                    return ('%s:%s:expected-e%s:got-%s' % (k, tag, '/'.join(map(str, sorted(exp[1]))), tok[0:1] + (tok[1:] if tok[0] == 'e' else '')),
+                    return ('%s:%s:expected-e%s:got-%s' % (k, tag, '/'.join(map(str, sorted(exp[1]))), 'value' if tok[0] == 'v' else tok),
                             'subscripts %s of array %s%s: expected error %s, got %s'
                             % (list(idx), NAMES[n], self.arrays[n][0], sorted(exp[1]), tok))
                 return None
@@ -327,9 +335,9 @@ class Oracle(object):
                 elif self.kind == 'implicit':
                     self.kind = 'fuzzy'
             return None
-        if k == 'clear':
+        if k in ('clear', 'new', 'run'):
             self.arrays, self.base, self.kind = {}, None, None
-            return None if tok == 'ok' else ('clear:error', 'CLEAR gave %s' % tok)
+            return None if tok == 'ok' else ('%s:error' % k, '%s gave %s' % (k.upper(), tok))
         raise ValueError(op)
 
     def check_snapshot(self, snap):
@@ -588,6 +596,94 @@ def random_history(rng, length):
 
 
 # ----------------------------------------------------------------------------------------------
+# (F) the OPTION BASE state machine: short histories over a small alphabet
+
+def predict(sim, op):
+    """advance the generator-side copy of the oracle with the outcome the statement predicts"""
+    if op[0] == 'get':
+        a = sim.arrays.get(op[1])
+        cands = ['v%d' % (a[1].get(tuple(op[2]), 0) if a else 0)]
+    else:
+        cands = ['ok']
+    for tok in cands + ['e5', 'e9', 'e10']:
+        c = copy.deepcopy(sim)
+        if c.step(op, tok) is None:
+            return c
+    return sim
+
+
+def base_history(rng):
+    """
+    Random sequence over {OPTION BASE 0/1, DIM with bounds 0..3, creation by first use, ERASE of one / several /
+    the last remaining / all arrays, read or write at subscript 0 / 1 / max / max+1, CLEAR, NEW, RUN}.
+    A copy of the oracle follows the history so that "the last remaining array" and "max" are the true ones;
+    the history is arranged in create / probe / erase-everything rounds often enough that the base passes
+    through unset -> implied -> unset -> explicit -> (all arrays erased) -> ... several times without a CLEAR.
+    """
+    pool = rng.sample([0, 1, 5, 2], rng.randint(1, 3))
+    sim = Oracle()
+    ops = []
+
+    def emit(op):
+        ops.append(op)
+        return predict(sim, op)
+
+    def probe(n):
+        a = sim.arrays.get(n)
+        dims = a[0] if a else [10] * rng.choice([1, 1, 2])
+        idx = [rng.choice([0, 1, d, d + 1]) for d in dims]
+        return ['set', n, idx, rng.randint(1, 29999)] if rng.random() < 0.5 else ['get', n, idx]
+
+    length = rng.randint(6, 14)
+    while len(ops) < length:
+        r = rng.random()
+        live = sorted(sim.arrays)
+        if r < 0.17:
+            sim = emit(['ob', rng.randint(0, 1)])
+        elif r < 0.37:
+            items = [[rng.choice(pool), [rng.choice([0, 1, 1, 2, 3]) for _ in range(rng.choice([1, 1, 2]))]]
+                     for _ in range(rng.choice([1, 1, 2]))]
+            sim = emit(['dim', items])
+        elif r < 0.62:
+            sim = emit(probe(rng.choice(pool)))
+        elif r < 0.92:
+            q = rng.random()
+            if live and q < 0.55:
+                # everything that exists goes: in one statement or one by one
+                if rng.random() < 0.5:
+                    rng.shuffle(live)
+                    sim = emit(['erase', live])
+                else:
+                    for n in live:
+                        sim = emit(['erase', [n]])
+            elif live and q < 0.8:
+                sim = emit(['erase', [rng.choice(live)]])
+            else:
+                sim = emit(['erase', [rng.choice(pool) for _ in range(rng.choice([1, 2]))]])
+            if not sim.arrays and rng.random() < 0.6:
+                # what does the base look like with no array left?
+                nxt = rng.random()
+                if nxt < 0.45:
+                    sim = emit(['ob', rng.randint(0, 1)])
+                n = rng.choice(pool)
+                sim = emit(['dim', [[n, [rng.choice([0, 1, 3])]]]] if rng.random() < 0.6 else probe(n))
+                sim = emit(['get', n, [0]])
+        else:
+            sim = emit([rng.choice(['clear', 'new', 'run'])])
+    # final observation of the base: subscript 0 of every array, a DIM with bound 0, both OPTION BASE values
+    for n in sorted(sim.arrays):
+        sim = emit(['get', n, [0] * len(sim.arrays[n][0])])
+    spare = [n for n in (3, 2, 1, 0) if n not in sim.arrays]
+    if spare:
+        sim = emit(['dim', [[spare[0], [0]]]])
+    first = rng.randint(0, 1)
+    sim = emit(['ob', first])
+    sim = emit(['ob', 1 - first])
+    ops.append(['dump'])
+    return ops
+
+
+# ----------------------------------------------------------------------------------------------
 # (D) the anchored functions called directly
 
 def direct_index(ctx, n_random):
@@ -734,7 +830,7 @@ def run(ctx):
     # (C) random histories
     impl.close()
     impl = Impl(rng)
-    nh = 110 if ctx.quick else 2500
+    nh = 90 if ctx.quick else 2500
     for j in range(nh):
         ops = random_history(rng, rng.randint(25, 70))
         run_history(ctx, impl, ops, 'C', collect)
@@ -743,8 +839,19 @@ def run(ctx):
         if len(collect) >= 50:
             flush(ctx, collect, 'random-history')
     flush(ctx, collect, 'random-history')
-    impl.close()
     ctx.log('random histories done: %d evaluations' % ctx.evaluations)
+    # (F) OPTION BASE state machine
+    nb = 420 if ctx.quick else 12000
+    for j in range(nb):
+        ops = base_history(rng)
+        run_history(ctx, impl, ops, 'F', collect)
+        if j == 0:
+            ctx.sample({'history': enc_hist(ops)})
+        if len(collect) >= 200:
+            flush(ctx, collect, 'base-history')
+    flush(ctx, collect, 'base-history')
+    impl.close()
+    ctx.log('option-base histories done: %d evaluations' % ctx.evaluations)
     direct_index(ctx, 150 if ctx.quick else 3000)
     subscript_forms(ctx)
 
